@@ -225,7 +225,11 @@ class CodecSide:
                 if len(st) != 1 or obs[-1] != st[0]:
                     fails.append(("crash", "step %d `%s`: malformed output %r" % (i, op[:60], obs[:3])))
                     break
-                cur[1] += [l for l in obs if not l.startswith("st ")]
+                if cfg.kind != "ex":
+                    bad = self.retained(i, op, obs)
+                    if bad:
+                        fails.append(bad)
+                cur[1] += [l for l in obs if not l.startswith(("st ", "kept ", "distinct "))]
                 cur[2] = st[0]
                 cur[3] += [l for l in blk if l.startswith("# fields")]
                 if w[0] == "poke":
@@ -284,6 +288,29 @@ class CodecSide:
         return fails
 
     @staticmethod
+    def retained(i, op, obs):
+        """one onMessage() call: the consumer keeps every shared_ptr it is handed; after the call has returned each kept
+        pointer must still hold the message it was delivered with (`kept` lines, printed from the kept pointers, against
+        the `msg` lines, printed inside the callbacks), and the pointers of one call must be distinct objects"""
+        msgs = [l.split()[1:3] for l in obs if l.startswith("msg ")]
+        kept = [l.split() for l in obs if l.startswith("kept ")]
+        dist = [l.split() for l in obs if l.startswith("distinct ")]
+        if len(dist) != 1 or len(kept) != len(msgs) or any(len(k) not in (5, 6) for k in kept):
+            return ("crash", "step %d `%s`: %d messages delivered, %d retained, %d `distinct` lines" % (i, op[:60], len(msgs), len(kept), len(dist)))
+        for n, (m, k) in enumerate(zip(msgs, kept)):
+            if k[3] == "changed" or k[-2:] != m:
+                return ("codec-retained", "step %d `%s`: message %d of this onMessage() call was delivered as `msg %s` but the pointer the "
+                        "consumer kept holds `%s` after the call returned (%d messages in this call): a message handed out did not "
+                        "stay the message" % (i, op[:60], n, " ".join(m), " ".join(k[3:]), len(msgs)))
+        objs = [k[2] for k in kept]
+        if dist[0][1] != ("1" if len(set(objs)) == len(objs) else "0") or dist[0][2] != "n=%d" % len(kept):
+            return ("crash", "step %d `%s`: `%s` contradicts the object identities %r" % (i, op[:60], " ".join(dist[0]), objs))
+        if dist[0][1] != "1":
+            return ("codec-shared-object", "step %d `%s`: the %d messages delivered by this onMessage() call are not distinct objects "
+                    "(object identities %r)" % (i, op[:60], len(kept), objs))
+        return None
+
+    @staticmethod
     def fields_of_encode(cfg, w):
         def b(tok):
             return "-" if tok == "-" else "h:" + parse_bytes(tok).hex()
@@ -333,9 +360,9 @@ class CodecSide:
         return struct.pack(">i", v)
 
     def make_stream(self, rng, cfg, pool, cls):
-        """returns (stream bytes, marks)"""
+        """returns (stream bytes, marks, ends of the frames as built - before a truncation)"""
         tag = cfg.tag
-        k = rng.choice([1, 1, 2, 2, 3, 5])
+        k = rng.choice([1, 2, 2, 3, 3, 5])
         small = [f for f in pool if len(f[1]) <= 400] or pool
         frames = [rng.choice(pool if rng.random() < 0.15 else small) for _ in range(k)]
         parts = [f[1] for f in frames]
@@ -405,10 +432,11 @@ class CodecSide:
                 # plausible length field in front of garbage
                 n = rng.choice([len(tag) + 4, len(tag) + 5, 16, 30])
                 parts = [struct.pack(">i", n) + gen_bytes(rng.randrange(1 << 30), rng.choice([n, n - 1, n + 3]))]
-        marks, pos = [], 0
+        marks, ends, pos = [], [], 0
         for p in parts:
             marks += [pos + 1, pos + 2, pos + 3, pos + 4, pos + 4 + len(tag), pos + len(p) - 4, pos + len(p) - 1, pos + len(p)]
             pos += len(p)
+            ends.append(pos)
         stream = b"".join(parts)
         if cls == "truncated" or (cls != "valid" and rng.random() < 0.15):
             r = rng.random()
@@ -424,7 +452,24 @@ class CodecSide:
             stream = stream[:max(cut, 0)]
         elif rng.random() < 0.2:
             stream += gen_bytes(rng.randrange(1 << 30), rng.choice([1, 2, 3, 4, 5, 8]))
-        return stream, marks
+        return stream, marks, ends
+
+    @staticmethod
+    def large_chunk_cuts(rng, n, ends, count):
+        """cut sets that leave SEVERAL complete frames in one delivery (one onMessage() call decodes >= 2 of them): groups
+        of 2 and of 3 whole frames, and two whole frames plus the beginning of the next"""
+        ends = [e for e in ends if 0 < e < n]
+        res = []
+        for g in (2, 3):
+            cuts = ends[g - 1::g]
+            if cuts and len(ends) + 1 > g:
+                count("seg:groups-of-%d-frames" % g)
+                res.append(cuts)
+        if len(ends) >= 2:
+            c = min(n - 1, ends[1] + rng.choice([1, 2, 3, 4, 5, 9]))
+            count("seg:two-frames-and-a-bit")
+            res.append([c] + [e for e in ends[3::2] if e > c])
+        return res
 
     CLASSES_VALID = ["valid", "valid", "valid", "truncated", "truncated"]
     CLASSES_BAD = ["bitflip", "bitflip", "multibyte", "tag-recomputed", "payload-recomputed", "payload-recomputed",
@@ -621,7 +666,8 @@ class HttpSide:
 
     def make_stream(self, rng, cls):
         if cls == "valid":
-            s = b"".join(self.valid_request(rng) for _ in range(rng.choice([1, 1, 2, 3])))
+            # keep-alive / pipelined: several requests on one connection, the context is reset() between them
+            s = b"".join(self.valid_request(rng) for _ in range(rng.choice([1, 2, 2, 3, 4])))
         elif cls == "truncated":
             s = b"".join(self.valid_request(rng) for _ in range(rng.choice([1, 2])))
             r = rng.random()
@@ -706,7 +752,10 @@ class Prop:
                   "sets (line_valid_result); HTTP segmentation invariance (http_seg_invariant: the nested parseRequest/"
                   "HttpServer driver equals the flattened line loop, then the generic theorem), only complete lines are "
                   "consumed (only_complete_lines), termination under the stated precondition (http_terminates) and the "
-                  "non-termination outside it (parse_spins). Constants, guards, "
+                  "non-termination outside it (parse_spins); the messages one onMessage() call hands out are pairwise distinct objects "
+                  "that still hold what they were delivered with when the call returns (delivered_messages_are_fresh, over an "
+                  "explicit heap model under the extracted allocation site allocPerFrame; shared_object_is_overwritten is the "
+                  "witness for the other discipline). Constants, guards, "
                   "offsets and decision trees of the models are re-extracted from /repo on every run; the loops and slicing are "
                   "tied by the differential run; zlib's Adler-32 and protobuf's verdicts are environment")
     level_note = ("Trusted: Lean kernel (axioms propext, Classical.choice, Quot.sound only), vlib/extract.py + vlib/gen/codec.py, "
@@ -719,6 +768,9 @@ class Prop:
             "malformed generator); every segmentation (all 2^(n-1)) of streams up to 11 (quick) / 14 (thorough) bytes, "
             "byte-by-byte, every single cut at a mark (inside each length field, around tag and checksum, frame ends; "
             "HTTP: between CR and LF, around separators), all marks at once and random cut sets for longer ones; "
+            "codec: deliveries that hold groups of 2 and of 3 whole frames, and two frames plus the beginning of a third (one "
+            "onMessage() call decodes several frames; the harness keeps every MessagePtr and reports object identity and content after "
+            "the call returned); HTTP: 1-4 requests per connection with reset() between them; "
             "one evaluation = one stream with all its segmentations; non-trivial = at least one message, request or error; "
             "distinct = distinct implementation traces")
     trusted_base = [
@@ -837,6 +889,11 @@ class Prop:
                 ctx.count(p + "outcome:" + ("all-consumed" if "left=0 " in st + " " else "waits-for-more"))
             ctx.count(p + "stream-bytes:" + self.bucket(len(parse_bytes(sc[1].split()[1]))))
         ctx.count(p + "deliveries", sc.count("reset") + 1)
+        # how many complete messages / requests ONE call of the decoder produced (what a retained-object slip needs: >= 2)
+        for op, b in zip(sc, blocks):
+            if op.startswith("feed"):
+                n = sum(1 for l in ctx.observable(b) if l.split()[0] in ("msg", "req"))
+                ctx.count(p + "messages-per-call:%s" % (n if n < 3 else "3+"))
         ctx.count(p + "chunks", sum(1 for l in sc if l.startswith("feed")))
         for b in blocks:
             for l in b:
@@ -861,6 +918,17 @@ class Prop:
             b, _ = ctx.run_impl(exe, Case(side.engine, ls), timeout=120)
             f = side.oracle(ls, b)
             return bool(f) and f[0][0] == kind
+        # a long scenario (every segmentation of one stream): first cut it down to the deliveries up to the step the
+        # oracle names, then minimise
+        m = re.search(r"\bstep (\d+)\b", fail[1])
+        if m and int(m.group(1)) + 1 < len(sc):
+            ops = [l for l in sc if l.strip()]
+            cut = ops[:int(m.group(1)) + 1]
+            last_reset = max([j for j, l in enumerate(cut) if l.split()[0] == "reset"] or [0])
+            for cand in ([cut[0]] + cut[last_reset + 1:], cut):
+                if len(cand) < len(sc) and still(cand):
+                    sc = cand
+                    break
         small = ddmin(sc, still, keep_prefix=1, budget=120) if len(sc) <= 4000 and still(sc) else sc
         b, _ = ctx.run_impl(exe, Case(side.engine, small), timeout=120)
         f = side.oracle(small, b)
@@ -890,8 +958,14 @@ class Prop:
         exh = 11 if quick else 14
         ctx.extra.setdefault("exhaustive_part", {})["codec"] = {
             "every_segmentation_of_streams_up_to_bytes": exh, "two_frame_streams_16_to_17_bytes": not quick}
-        # 1. short streams, every segmentation
+        # 1. short streams, every segmentation; first: three different frames that arrive together (pipelined sender), in
+        # one piece and cut at / inside the frames - a consumer that keeps the messages must still hold all three
         scs = []
+        c0 = CodecCfg("lite", b"", 0)
+        fa, fb, fc = ref_frame(b"", b"\x10\x01"), ref_frame(b"", b""), ref_frame(b"", b"\x0a\x01x")
+        st3 = fa + fb + fc
+        scs.append((side.scenario(c0, st3, [[len(fa)], [len(fa) + len(fb)], [len(fa), len(fa) + len(fb)], [3], [len(fa) + 3],
+                                            [len(st3) - 1]]), {"class": "pipelined-frames"}))
         for cfg, stream in side.short_streams(rng):
             if len(stream) <= exh:
                 scs.append((side.scenario(cfg, stream, segmentations(rng, stream, [], exh, 0, count)), {"class": "short-exhaustive"}))
@@ -949,9 +1023,10 @@ class Prop:
             ci = rng.randrange(len(cfgs))
             cfg, pool = cfgs[ci], pools[ci]
             cls = rng.choice(side.CLASSES_VALID) if rng.random() < 0.45 else rng.choice(side.CLASSES_BAD)
-            stream, marks = side.make_stream(rng, cfg, pool, cls)
+            stream, marks, ends = side.make_stream(rng, cfg, pool, cls)
             nrand = 4 if len(stream) < 3000 else 1
             segs = list(segmentations(rng, stream, marks if len(stream) < 20000 else marks[:8], 0, nrand, count))
+            segs += side.large_chunk_cuts(rng, len(stream), ends, count)
             batch.append((side.scenario(cfg, stream, segs), {"class": cls}))
             if sum(len(s) for s, _ in batch) > 60000:
                 self.run_scenarios(ctx, side, exe, batch, "codec-random")
